@@ -20,6 +20,7 @@ package c16
 import (
 	"bufio"
 	"fmt"
+	"math"
 	"os"
 	"strconv"
 	"strings"
@@ -669,6 +670,86 @@ func runAgg(w []string, off, spare int) string {
 	}) + " " + showSlice(intCodec, a) + rec.String()
 }
 
+// Max / Min / Sum at int8 / uint8 (the case generator keeps the elements inside the type's range)
+func agg8[N int8 | uint8](op string, xs []int, isNil bool) string {
+	var a []N
+	if !isNil {
+		a = make([]N, len(xs))
+		for i, x := range xs {
+			a[i] = N(x)
+		}
+	}
+	back := func() string {
+		ys := make([]int, len(a))
+		for i, x := range a {
+			ys[i] = int(x)
+		}
+		return showInts("[", "]", "nil", a == nil, ys)
+	}
+	return catch(func() string {
+		switch op {
+		case "Max":
+			return showInt(int(slice.Max(a)))
+		case "Min":
+			return showInt(int(slice.Min(a)))
+		}
+		return showInt(int(slice.Sum(a)))
+	}) + " " + back()
+}
+
+// the functions of SliceAggModel: <Max|Min|Sum><I8|U8> slice; <Max|Min>F64 [key:bits,...]; NewPair / PairSplit / PairString k v
+func runCall2(w []string) (string, bool) {
+	switch w[0] {
+	case "MaxI8", "MinI8", "SumI8", "MaxU8", "MinU8", "SumU8":
+		if len(w) != 2 {
+			panic(bad{"arity"})
+		}
+		var xs []int
+		if w[1] != "nil" {
+			for _, x := range items(w[1]) {
+				xs = append(xs, atoi(x))
+			}
+		}
+		if w[0][3:] == "I8" {
+			return agg8[int8](w[0][:3], xs, w[1] == "nil"), true
+		}
+		return agg8[uint8](w[0][:3], xs, w[1] == "nil"), true
+	case "MaxF64", "MinF64":
+		if len(w) != 2 {
+			panic(bad{"arity"})
+		}
+		var fs []float64
+		for _, p := range mkPairs(intCodec, w[1]) {
+			fs = append(fs, math.Float64frombits(uint64(int64(p.Value))))
+		}
+		return catch(func() string {
+			if w[0] == "MaxF64" {
+				return showInt(int(int64(math.Float64bits(slice.Max(fs)))))
+			}
+			return showInt(int(int64(math.Float64bits(slice.Min(fs)))))
+		}), true
+	case "NewPair", "PairSplit", "PairString":
+		if len(w) != 3 {
+			panic(bad{"arity"})
+		}
+		p := pair.NewPair(atoi(w[1]), atoi(w[2]))
+		switch w[0] {
+		case "NewPair":
+			return showPairs(intCodec, []pair.Pair[int, int]{p}), true
+		case "PairSplit":
+			k, v := p.Split()
+			return showInt(k) + " " + showInt(v), true
+		}
+		bs := []byte(p.String())
+		ys := make([]int, len(bs))
+		for i, b := range bs {
+			ys[i] = int(b)
+		}
+		return showInts("[", "]", "nil", false, ys), true
+	}
+	return "", false
+}
+
 func runLine(line string) (res string) {
 	defer func() {
 		if r := recover(); r != nil {
@@ -682,6 +763,9 @@ func runLine(line string) (res string) {
 	w := strings.Fields(line)
 	if len(w) < 2 {
 		return "badcase"
+	}
+	if r, ok := runCall2(w[1:]); ok {
+		return r
 	}
 	ty, off, spare := w[0], 0, 0
 	if i := strings.IndexByte(ty, '@'); i >= 0 {
